@@ -95,6 +95,7 @@ def gen_cases(tier, seed, with_chi2=True):
     def add(c, n, widx):
         c['W'], c['psd'] = W(n, widx)
         c['chi2'] = bool(with_chi2 and _chi2_headroom(c))
+        c['tiny'] = bool(c.get('rz') and c['rz'][-1] > 1000)
         cases.append(c)
 
     thorough = tier == 'thorough'
@@ -130,6 +131,24 @@ def gen_cases(tier, seed, with_chi2=True):
         t = [rnd.choice(T3L + T3) for _ in range(3)]
         add(dict(fam='odo', k='SE3', t1=t[0], r1=rnd.choice(hz), t2=t[1], r2=rnd.choice(hz), tz=t[2], rz=rnd.choice(hz)), 6, n)
         n += 1
+    # tiny measurement rotations (0.5 deg ... 0.005 deg): the odometry error is linear in the measurement's rotation, so the large denominator of
+    # q = (2n, 0, 0, n^2 - 1) / (n^2 + 1) fits TLC's integers although nothing on the ordinary lattice comes closer to the identity than 5 degrees
+    for nn in (100, 500, 2000, 20000):
+        for ax in range(3):
+            for sg in (1, -1):
+                q = [0, 0, 0, nn * nn - 1, nn * nn + 1]
+                q[ax] = sg * 2 * nn
+                for _ in range(4 if thorough else 1):
+                    t = [rnd.choice(T3) for _ in range(3)]
+                    add(dict(fam='odo', k='SE3', t1=t[0], r1=rnd.choice(hz), t2=t[1], r2=rnd.choice(hz), tz=t[2], rz=tuple(q)), 6, n)
+                    n += 1
+        for sg in (1, -1):
+            if nn > 100:
+                continue          # (the SE(2) angle gradient c ds - s dc squares the denominator)
+            for _ in range(4 if thorough else 1):
+                t = [rnd.choice(T2) for _ in range(3)]
+                add(dict(fam='odo', k='SE2', t1=t[0], r1=rnd.choice(B.C4), t2=t[1], r2=rnd.choice(B.C4), tz=t[2], rz=(nn * nn - 1, sg * 2 * nn, nn * nn + 1)), 3, n)
+                n += 1
     # -- SE(2) odometry
     r2 = B.C4 + B.PY5 + B.PY13
     for r1 in r2:
